@@ -14,7 +14,8 @@ every step, computes from the graph before and after:
 
 and requires: not touched → 0 calls (nothing fires because of a detached or unrelated object);
 touched and some spec changed → exactly 1 call; touched, every spec resolves on both sides and none
-changed → 0 calls; otherwise (attach from / detach to `None`) at most 1 call.  After every step —
+changed → 0 calls; otherwise (attach from / detach to `None`) at most 1 call — the same for a batch of
+assignments to one object (`update`), judged as one step.  After every step —
 ALSO a step during which a dependent method raised — no object outside the current resolution chains
 of `m` holds a watcher calling `t.m`, and every (object, parameter) the current walk of a spec reads
 (once its first sub-object is there) holds one.  When a method body raised, the exception left the
@@ -83,11 +84,18 @@ def mustWatch (w : PWorld) (t : Oid) (s : PathSpec) : List (Oid × Name) :=
     | some (.ref _) => readPairs w t s
     | _ => []
 
-def readChanged (o : Oid) (p : Name) (old new : Val) : List (Oid × Name × Val) → List (Oid × Name × Val) → Bool
+/-- the assignments of a step: (object, parameter, value before, value assigned) -/
+abbrev Asg := Oid × Name × Val × Val
+
+def readChanged (asg : List Asg) : List (Oid × Name × Val) → List (Oid × Name × Val) → Bool
   | [], [] => false
   | a :: as, b :: bs =>
-    (if (a.1, a.2.1) = (b.1, b.2.1) then ((a.1, a.2.1) = (o, p) && !valEq old new) else !valEq a.2.2 b.2.2) ||
-      readChanged o p old new as bs
+    (if (a.1, a.2.1) = (b.1, b.2.1) then
+       (match asg.find? (fun x => (x.1, x.2.1) = (a.1, a.2.1)) with
+        | some x => !valEq x.2.2.1 x.2.2.2
+        | none => false)
+     else !valEq a.2.2 b.2.2) ||
+      readChanged asg as bs
   | _, _ => true
 
 /-- the store: what the graph is after a step that raised nothing -/
@@ -97,6 +105,15 @@ def graphStep (g : List PObj) : Step → List PObj
     match g[o]? with
     | some ob => g.set o { ob with vals := setVals ob.vals p v }
     | none => g
+  | .update o kvs =>
+    kvs.foldl (fun g kv => match g[o]? with
+      | some ob => g.set o { ob with vals := setVals ob.vals kv.1 kv.2 }
+      | none => g) g
+
+def stepAssignments (wb : PWorld) : Step → List Asg
+  | .new _ _ => []
+  | .set o p v => [(o, p, (getParam wb o p).getD .none, v)]
+  | .update o kvs => kvs.map (fun kv => (o, kv.1, (getParam wb o kv.1).getD .none, kv.2))
 
 def methodsOf (classes : List PClass) (g : List PObj) : List (Oid × PMethod) :=
   (g.zipIdx.flatMap fun (ob, i) => match classes[ob.cls]? with | some c => c.methods.map (fun m => (i, m)) | none => [])
@@ -108,16 +125,16 @@ def judgeMethod (i : Nat) (wb wa : PWorld) (st : Step) (obs : PStepObs) (t : Oid
   let fires : Option String :=
     match st with
     | .new _ _ => if got = 0 then none else some s!"fires step={i} owner={t} method={m.name} expected=0 got={got} (construction)"
-    | .set o p v =>
-      let old := (getParam wb o p).getD .none
-      let touched := m.specs.any (fun s => (readPairs wb t s).contains (o, p))
+    | _ =>
+      let asg := stepAssignments wb st
+      let touched := m.specs.any (fun s => asg.any (fun x => (readPairs wb t s).contains (x.1, x.2.1)))
       if !touched then
         if got = 0 then none else some s!"detached step={i} owner={t} method={m.name} expected=0 got={got}"
       else
         let both := m.specs.filter (fun s => (leafReads wb t s).isSome && (leafReads wa t s).isSome)
         let changed := both.any (fun s =>
           match leafReads wb t s, leafReads wa t s with
-          | some a, some b => readChanged o p old v a b
+          | some a, some b => readChanged asg a b
           | _, _ => false)
         if changed then
           if got = 1 || (obs.raised && got = 0) then none else some s!"fires step={i} owner={t} method={m.name} expected=1 got={got}"
